@@ -582,7 +582,9 @@ Inductive op :=
 | ORetopo (t' : topo)
 | ODup
 | OXml (t' : topo)
-| ORegisterNull (flags : N).    (* hwloc_memattr_register with a NULL name *)
+| ORegisterNull (flags : N)     (* hwloc_memattr_register with a NULL name *)
+| OAllow (incl : bool) (cpuset nodeset : option bset) (flags : N).
+    (* hwloc_topology_allow on a topology loaded with (incl=true) or without INCLUDE_DISALLOWED *)
 
 Inductive out :=
 | RUnit (r : res unit)
@@ -594,6 +596,22 @@ Inductive out :=
 | RBestI (r : res (iloc * N))
 | RNodes (r : res (N * list N))
 | RSet (r : res bset).
+
+(* hwloc_topology_allow: it changes topology->allowed_cpuset/allowed_nodeset only; nothing in
+   memattrs.c reads them (the refresh intersects cpuset initiators with the ROOT cpuset), so the
+   memory-attribute state is untouched.  The topology here is never "this system". *)
+Definition root_nodeset (t : topo) : bset := fold_right (fun n s => bs_add (o_os n) s) bs_empty (numa_nodes t).
+Definition allow_result (t : topo) (incl : bool) (cpuset nodeset : option bset) (flags : N) : res unit :=
+  if negb incl then Err EINVAL
+  else if negb (N.ldiff flags (N.lor HWLOC_ALLOW_FLAG_ALL (N.lor HWLOC_ALLOW_FLAG_LOCAL_RESTRICTIONS HWLOC_ALLOW_FLAG_CUSTOM)) =? 0) then Err EINVAL
+  else if flags =? HWLOC_ALLOW_FLAG_ALL then
+    match cpuset, nodeset with None, None => Ok tt | _, _ => Err EINVAL end
+  else if flags =? HWLOC_ALLOW_FLAG_LOCAL_RESTRICTIONS then Err EINVAL    (* sets given, or not this system *)
+  else if flags =? HWLOC_ALLOW_FLAG_CUSTOM then
+    if match cpuset with Some c => negb (bs_intersects (t_root t) c) | None => false end then Err EINVAL
+    else if match nodeset with Some n => negb (bs_intersects (root_nodeset t) n) | None => false end then Err EINVAL
+    else Ok tt
+  else Err EINVAL.
 
 Definition step (s : mstate) (o : op) : mstate * out :=
   match o with
@@ -616,6 +634,7 @@ Definition step (s : mstate) (o : op) : mstate * out :=
   | ODup => (dup_switch s, RUnit (Ok tt))
   | OXml t' => (xml_switch s t', RUnit (Ok tt))
   | ORegisterNull _ => (s, RNum (Err EINVAL))   (* flag checks and the NULL test all end in EINVAL *)
+  | OAllow incl c n f => (s, RUnit (allow_result (m_topo s) incl c n f))
   end.
 
 Definition run (s : mstate) (ops : list op) : mstate := fold_left (fun s o => fst (step s o)) ops s.
